@@ -260,9 +260,10 @@ def check(ctx):
         "evo.core.sync.associate_trajectories",
     ]
     for q in producers:
-        f = prog.func(q)
-        r = results[q]
-        ctx.analysed_fn(q)
+        # what runs under that name: own definition or an inherited one
+        f = prog.method(q)[0] if ".Pose" in q else prog.func(q)
+        r = results[f.qualname]
+        ctx.analysed_fn(f.qualname)
         for (v, live) in r.returns:
             rs = _object_roots(v)
             ok = not rs
